@@ -325,6 +325,7 @@ def run(ctx):
                             ctx.violation(f"C18/cell/{'raw' if raw_mode else 'derived'}/{name[:3]}", f"{name} row {r_}: cell {cv!r} (dtype {col.dtype}) != parsed {'raw ' if raw_mode else ''}value {w_!r}",
                                           {"name": name, "mode": "raw" if raw_mode else "derived", "apid": apid, "row": r_})
     same_names_section(ctx, tmp)
+    forwarding_section(ctx, tmp)
     ctx.traces += 2
     ctx.evaluations += ncell
     ctx.extra["cells_compared"] = ncell
@@ -382,6 +383,45 @@ def same_names_section(ctx, tmp):
                                       f"same names: {nm} row {r_} = {c.item() if isinstance(c, np.generic) else c!r} (dtype {col.dtype}), parsed {w_!r}",
                                       {"variant": tag, "name": nm, "row": r_})
                         break
+
+
+def forwarding_section(ctx, tmp):
+    """Keyword options are handed to the packet generator unchanged (also falsy ones): the rows of a dataset are the packets the
+    generator yields for the same files with the same options - bad-length packets withheld when parse_bad_pkts=False, prefixes
+    skipped with skip_header_bytes."""
+    from space_packet_parser import xarr
+    sobj = xdoc.build(structure_defn())
+    for prefix in (0, 4):
+        files_pk, nid = [], 0
+        for fi in range(2):
+            pks = []
+            for _ in range(5):
+                nid += 1
+                pkb, _vals = structure_packet("a", nid, 1 + fi % 2)
+                if nid % 4 == 0:                       # one byte too many: parses, but the length does not match
+                    pkb = defs.mk_packet(bytes(pkb[6:]) + b"\x00", apid=1 + fi % 2, seq=nid)
+                pks.append(bytes(prefix) + pkb)
+            files_pk.append(pks)
+        paths = write_files(tmp, files_pk, f"fwd{prefix}")
+        for kw in ({}, {"parse_bad_pkts": False}, {"parse_bad_pkts": True}):
+            kw = dict(kw, skip_header_bytes=prefix) if prefix else kw
+            with warnings.catch_warnings():
+                warnings.simplefilter("ignore")
+                want = {}
+                for pth in paths:
+                    with open(pth, "rb") as f:
+                        for pk in sobj.packet_generator(f, root_container_name="ROOT", **kw):
+                            want.setdefault(pk.raw_data.apid, []).append(int(pk["ID"]))
+                try:
+                    ds = xarr.create_dataset(paths, sobj, root_container_name="ROOT", **kw)
+                    got = {a: [int(x) for x in ds[a]["ID"].values] for a in ds}
+                except Exception as e:  # noqa: BLE001
+                    got = f"{type(e).__name__}: {e}"[:200]
+            ctx.traces += 1
+            ctx.count(("forwarding", prefix, json.dumps(kw, sort_keys=True)))
+            if got != want:
+                ctx.violation("C18/options-not-forwarded", f"create_dataset(..., {kw}) has rows (packet ids) {got}; the packet generator with the same "
+                              f"options yields {want}", {"kw": kw, "prefix": prefix})
 
 
 def replay(ctx, obj):
